@@ -553,6 +553,7 @@ func Run(c *engine.Ctx) {
 	family(c, "list", listValues(),
 		func(a, b proto.Message) bool { return a.(*sbom.NodeList).Equal(b.(*sbom.NodeList)) }, nil)
 	deepNesting(c)
+	afterEdit(c)
 	// nil argument
 	c.Group("nil")
 	c.Case(func() any { return "Equal(nil)" }, func(t *engine.T) *engine.Violation {
@@ -614,4 +615,61 @@ func deepNesting(c *engine.Ctx) {
 			return nil
 		})
 	}
+}
+
+// afterEdit: a node (and a list holding it) is compared and hashed, then edited in place, then compared and hashed
+// again. The second answers must be those of a freshly built copy of the edited value (differential oracle). Edits come
+// from the deviation generator, so they include changes that keep the encoded size, the number of elements and the
+// identifier; anything remembered about a value from an earlier call and validated too weakly shows here.
+func afterEdit(c *engine.Ctx) {
+	c.Group("after-edit")
+	full := &sbom.Node{}
+	gen.Full(full, "A", 2)
+	bases := map[string]*sbom.Node{"full": full, "sparse": {Id: "n1", Name: "sparse", Version: "1.0"}}
+	n := 0
+	for _, bn := range []string{"full", "sparse"} {
+		base := bases[bn]
+		devs := gen.Deviations(base, 2)
+		n += len(devs)
+		for di := range devs {
+			bn, di := bn, di
+			c.Case(func() any { return map[string]string{"base": bn, "edit-after-first-comparison": devs[di].Label} }, func(t *engine.T) *engine.Violation {
+				v := proto.Clone(base).(*sbom.Node)
+				ref := proto.Clone(base).(*sbom.Node)
+				ls := func(x *sbom.Node) *sbom.NodeList {
+					return &sbom.NodeList{Nodes: []*sbom.Node{x, {Id: "other"}}, RootElements: []string{"other"}}
+				}
+				lv, lref := ls(v), ls(ref)
+				// first round of questions
+				_, _, _, _ = v.Checksum(), v.Equal(ref), ref.Equal(v), lv.Equal(lref)
+				func() {
+					defer func() { _ = recover() }()
+					devs[di].Mutate(v.ProtoReflect())
+				}()
+				fresh := proto.Clone(v).(*sbom.Node)
+				lf := ls(fresh)
+				t.Transitions(8)
+				t.Validated(4)
+				if a, b := v.Checksum(), fresh.Checksum(); a != b {
+					return engine.Violate("checksum-agreement", "after-edit", "after the in-place edit %s the node's checksum is %s, a fresh copy of the same content has %s", devs[di].Label, a, b)
+				}
+				if a, b := v.Equal(ref), fresh.Equal(ref); a != b {
+					return engine.Violate("discrimination", "after-edit", "after the in-place edit %s Equal(edited, base)=%v, with a fresh copy of the edited node it is %v", devs[di].Label, a, b)
+				}
+				if a, b := ref.Equal(v), ref.Equal(fresh); a != b {
+					return engine.Violate("symmetric", "after-edit", "after the in-place edit %s Equal(base, edited)=%v, with a fresh copy of the edited node it is %v", devs[di].Label, a, b)
+				}
+				if a, b := lv.Equal(lref), lf.Equal(lref); a != b {
+					return engine.Violate("discrimination", "after-edit", "after the in-place edit %s NodeList.Equal(list with the edited node, base list)=%v, with a fresh copy it is %v", devs[di].Label, a, b)
+				}
+				if a, b := lref.Equal(lv), lref.Equal(lf); a != b {
+					return engine.Violate("symmetric", "after-edit", "after the in-place edit %s NodeList.Equal(base list, list with the edited node)=%v, with a fresh copy it is %v", devs[di].Label, a, b)
+				}
+				t.State("after-edit|" + bn + "|" + devs[di].Label)
+				t.Outcome("after-edit-ok")
+				return nil
+			})
+		}
+	}
+	c.Bound("after-edit", fmt.Sprintf("%d in-place edits (every deviation of a fully populated and of a sparse node, nested to depth 2) between two rounds of Checksum / Node.Equal / NodeList.Equal on the same values; second answers = answers on a fresh copy of the edited value", n))
 }
